@@ -190,7 +190,9 @@ class Evaluator(abc.ABC):
         # TODO: use storage to count submitted and gathered jobs...
         # TODO: should be a property with a setter?
         self.maximum_num_jobs_submitted = maximum_num_jobs_submitted
-        self._num_jobs_offset = self.num_jobs_gathered
+        # Absolute count of the jobs gathered so far: ``num_jobs_gathered`` is already relative
+        # to the previous offset and must not be used to compute the new one.
+        self._num_jobs_offset = len(self.job_id_gathered)
 
     @property
     def num_jobs_submitted(self):
